@@ -555,7 +555,9 @@ PROPS = {
                     "`![a](bT)` for every T of length <= 5/4 (6/5) over {a, space, newline, \", ', (, ), backslash}; every string of length <= 6 (7) over "
                     "{a, [, ], (, ), !, backslash} and {a, [, ], (, ), <, >, space}; with the definition `[a]: /u` appended every string of length <= 6 (7) over "
                     "{a, b, [, ], space, backslash, !} and {a, A, [, ], (, ), newline}; link reference definitions `[a]: X` + `[a]` for every X of length <= 5 (6) over "
-                    "{a, space, <, >, (, ), \", backslash, 0x01} (the destination scanner is shared); 30k+10k (400k+133k) random strings; the spec.json examples in scope (64, "
+                    "{a, space, <, >, (, ), \", backslash, 0x01} (the destination scanner is shared); reference labels / link texts across lines (every one-paragraph string of length <= 6 (8) over {a, b, [, ], !, newline} with a line "
+                    "ending between brackets + `[a b]: /u`) spelled at top level, in block quotes (with and without marker space, nested, in a list item), in a bullet item and with lazy "
+                    "continuation lines, clause reference-link-in-container-differs; 30k+10k (400k+133k) random strings; the spec.json examples in scope (64, "
                     "and 30 with one definition). Clause inline-link-differs; goldmark's confirmed deviations are attributed by asking the reference to "
                     "reproduce them (switches `Dev`): link-destination-pointy-differs, link-destination-unbalanced-paren-differs, "
                     "link-title-without-separator-differs, link-destination-control-char-differs, link-label-blank-differs, several-link-deviations-combined. "
@@ -809,3 +811,37 @@ PROPS["C09"]["claim"] += (" Round 2 of shiftsim: shift invariance now covers ALL
     "blocks of '# h' + blank line + b are the heading and the blocks of b alone, moved; for a non-empty first part the composition is proved from one "
     "explicit hypothesis about the prefix (independent_blocks_from_prefix: PrefixReached - prefix determinism and 'closing at end of input = closing by "
     "blank line + heading', not proved); store_acyclic: in every store the block phase builds child ids exceed the parent's id.")
+
+# ---- session 4, tnopanic round 2 + e2e round 3 + shiftsim round 3 + fnx round 2: END-TO-END theorems for the default pipeline ----
+PROPS["C01"]["claim"] += (" *** END TO END, every byte string (GM.Props.ConvertE2ENP.convert_total, re-exported): for EVERY source, every Unicode class assignment and "
+    "every renderer option set the composed model of the default CommonMark pipeline answers HTML - convertCore uc o src = ok html: no Go panic, no error, no "
+    "fuel exhaustion, no contract monitor, no run-time check (convert_never_errs). Ingredients, each a theorem for every byte string: the block driver WITH "
+    "the link-reference transformer returns a store (block_phase_total; the RequireParagraph path behind a setext underline included: block_phase_no_go_panic, "
+    "monitors_never_fire), the run-time guard is an observer (guard_never_fires, block_phase_guard_is_observer), the lines handed over are well formed with "
+    "padding 0 on every node of the TREE (block_phase_lines_wellformed, block_phase_lines_padding_zero; store-wide padding 0 is FALSE with transformers - "
+    "kernel-evaluated witness abandoned_heading_keeps_padding: a heading abandoned behind a transformed paragraph stays in the store, parentless, never "
+    "visited), the inline phase is total, the renderer side cannot fail on parser output. The same without transformers "
+    "(convert_total_without_transformers) and by agreement of the two drivers on sources without '[' (block_phase_bracket_free_eq; the brief idea 'the "
+    "transformer is silent without a bracket' is false on a paragraph without lines: link_reference_transformer_not_silent_on_lineless_paragraph, same on "
+    "real goldmark, harmless). What remains SEARCHED for C01: extensions and parser options other than the modelled ones, the real code behind the tie.")
+PROPS["C01"]["note"] = PROPS["C01"]["note"].replace("Paragraph transformers, extension block/inline parsers and the hand-over between the phases are not yet inside the proved model.",
+    "For the default CommonMark configuration the whole pipeline is inside the proved model (convert_total); extension block / inline parsers are modelled and "
+    "tied (convertX, convertH, convertF) with partial totality theorems; parser.WithAttribute is modelled at parser level only.")
+PROPS["C05"]["claim"] += (" *** END TO END, every byte string (GM.Props.ConvertE2ENP.parser_output_wellformed_total, re-exported): for EVERY source the composed "
+    "model's parser answers a tree, and the formal statement of C05 that the harness evaluates on real trees, wfAst, holds of it - all three clauses, no "
+    "hypothesis left: parse_ast_total, parser_output_wellformed (the four store facts discharged for the driver WITH transformers by "
+    "block_phase_lines_ordered, block_phase_raw_lines_ordered, block_phase_container_nodes_have_no_lines, block_phase_tree_consistent, "
+    "block_phase_items_under_lists). Extensions and parser options stay searched (wfast).")
+PROPS["C05"]["note"] = PROPS["C05"]["note"].replace("clauses (b) and (c) for the block and inline parsers are covered by search (wfast), not by proof",
+    "clauses (b) and (c) are proved end to end for the default CommonMark configuration; extensions and options are covered by search (wfast)") if "note" in PROPS["C05"] else ""
+PROPS["C09"]["claim"] += (" Round 3 of shiftsim: the first half of C09 is a THEOREM on an explicit infinite class - independent_blocks: for every first part a that is "
+    "empty or ends with a line feed and contains none of the bytes - * + 0-9 = ` ~ (block quotes incl. nested, paragraphs, ATX headings, ___, indented code, "
+    "HTML blocks allowed; lists, setext headings, fenced code excluded), every heading text h and EVERY document b: IndependentBlocks a h b "
+    "(prefix_reached_plain: a right-extension simulation of run a against run (a ++ t); 'closing at end of input = closing by blank line'; an open raw block "
+    "at the end of a makes the final tree end in a raw block).")
+PROPS["C16"]["claim"] += (" Round 2 of fnx: e2e_convertf_footnotes_consistent_unconditional - for every byte string, whenever the composed model converts the "
+    "document, the ids / hrefs / numbers FootnoteHTMLRenderer writes satisfy all six clauses (the AST shape is a theorem by construction of the tree walk "
+    "with documented domain monitors: e2e_shape_always_ok). Of 'no monitor fires': the store is tree-shaped for every source (e2e_convertf_store_wellformed), "
+    "the walk meets the list at most once and the root is the Document (e2e_convertf_block_monitor_never_fires), every FootnoteLink resolves "
+    "(e2e_convertf_inline_links_resolve) - theorems; FootnotesAllFiled (every Footnote ends as a child of the list) is stated, evaluated on every tie case, "
+    "never false (e2e_monitors_never_fire_of is the bridge).")
